@@ -1,7 +1,7 @@
 (* Extraction of the SNMPv3 model (auth, privacy, socket) for the correspondence checks (ExtrOcamlBasic only). *)
 From Coq Require Import Extraction ExtrOcamlBasic ZArith List.
 From GS Require Import Model.Base Gen.Constants Model.Ber Model.Pdu Model.Buffer Model.Exc Gen.ErrorMap Model.Ops
-  Model.Auth Model.Priv Model.V3.
+  Model.Auth Model.Priv Model.V3 Model.OidText Model.Emit Model.Session.
 From GS Require Model.Crypto.DES Model.Crypto.AES Model.Crypto.Modes Model.Crypto.MD5 Model.Crypto.SHA1.
 Extraction Language OCaml.
 Extraction "../ocaml/v3_model.ml"
@@ -12,4 +12,5 @@ Extraction "../ocaml/v3_model.ml"
   Modes.cbc_encrypt Modes.cbc_decrypt Modes.cfb_encrypt Modes.cfb_decrypt DES.des_encrypt_block DES.des_decrypt_block
   AES.aes128_encrypt_block MD5.md5 SHA1.sha1
   get_to_python err_to_exc
+  session_new py_refresh user_auth_alg user_auth_key user_priv_alg user_priv_key require_auth
   Z.add Z.mul Z.sub Z.opp Z.div_eucl Z.of_nat Z.compare Z.to_nat.
